@@ -10,6 +10,7 @@ import TemprenModel.Model.PyRepr
 import Std.Data.HashSet
 import TemprenModel.Model.Bind
 import TemprenModel.Model.Template
+import TemprenModel.Model.Printer
 open Tempren Tempren.Proto
 
 def hexNibble (c : Char) : Option Nat :=
@@ -158,6 +159,105 @@ def encTok : Tok → String
   | .argsStart => "(" | .dot => "." | .tagId s => "ID:" ++ encStr s | .argsEnd => ")" | .sep => "," | .eq => "="
   | .num s => "NUM:" ++ encStr s | .bool s => "BOOL:" ++ encStr s | .str q b => "STR:" ++ encStr (q :: b ++ [q])
   | .argName s => "ARG:" ++ encStr s
+
+/-! tree transport: `;`-separated prefix fields.
+  pat  := `P<n>` elem*n
+  elem := `R<str>` | `T<hasctx:T/F>` cat(opt str) name(str) `A<n>` val*n `K<n>` (name val)*n [pat]
+  val  := `i<int>` | `bT` | `bF` | `<str>` -/
+def decVal (f : String) : Option ArgVal :=
+  if f = "bT" then some (.bool true) else if f = "bF" then some (.bool false)
+  else match f.toList with
+    | 'i' :: r => (String.ofList r).toInt?.map ArgVal.int
+    | 's' :: _ => (decStr f).map ArgVal.str
+    | _ => none
+
+def takeVals : Nat → List String → Option (List ArgVal × List String)
+  | 0, fs => some ([], fs)
+  | n + 1, f :: fs => do
+    let v ← decVal f
+    let r ← takeVals n fs
+    pure (v :: r.1, r.2)
+  | _, [] => none
+
+def takeKws : Nat → List String → Option (List (List Char × ArgVal) × List String)
+  | 0, fs => some ([], fs)
+  | n + 1, k :: f :: fs => do
+    let k ← decStr k
+    let v ← decVal f
+    let r ← takeKws n fs
+    pure ((k, v) :: r.1, r.2)
+  | _, _ => none
+
+def countField (tag : Char) (f : String) : Option Nat :=
+  match f.toList with
+  | c :: r => if c = tag then (String.ofList r).toNat? else none
+  | [] => none
+
+mutual
+  partial def decPatF (fs : List String) : Option (Pat × List String) :=
+    match fs with
+    | f :: rest =>
+      match countField 'P' f with
+      | some n => decElemsF n rest
+      | none => none
+    | [] => none
+  partial def decElemsF (n : Nat) (fs : List String) : Option (Pat × List String) :=
+    match n with
+    | 0 => some (.nil, fs)
+    | n + 1 =>
+      match decElemF fs with
+      | some (e, rest) =>
+        match decElemsF n rest with
+        | some (p, rest') => some (.cons e p, rest')
+        | none => none
+      | none => none
+  partial def decElemF (fs : List String) : Option (Elem × List String) :=
+    match fs with
+    | f :: rest =>
+      match f.toList with
+      | 'R' :: r => (decStr (String.ofList r)).map (fun s => (Elem.raw s, rest))
+      | ['T', h] =>
+        match rest with
+        | cat :: name :: a :: rest2 =>
+          match decOptStr cat, decStr name, countField 'A' a with
+          | some cat, some name, some na =>
+            match takeVals na rest2 with
+            | some (args, k :: rest3) =>
+              match countField 'K' k with
+              | some nk =>
+                match takeKws nk rest3 with
+                | some (kws, rest4) =>
+                  if h = 'T' then
+                    match decPatF rest4 with
+                    | some (p, rest5) => some (.tag cat name args kws (some p), rest5)
+                    | none => none
+                  else some (.tag cat name args kws none, rest4)
+                | none => none
+              | none => none
+            | _ => none
+          | _, _, _ => none
+        | _ => none
+      | _ => none
+    | [] => none
+end
+
+def decTree (f : String) : Option Pat :=
+  match decPatF (f.splitOn ";") with
+  | some (p, []) => some p
+  | _ => none
+
+/-- style flags: 4 characters `qtsS`: quote (s/d/m = single/double/mixed by length parity),
+    booleans (l/u = lower/upper), shorthand (T/F), space (T/F) -/
+def decStyle (f : String) : Option Style :=
+  match f.toList with
+  | [q, b, sh, sp] =>
+    some { quote := fun s => if q = 's' then '\'' else if q = 'd' then '"' else (if s.length % 2 = 0 then '\'' else '"'),
+           trueWord := if b = 'l' then "true".toList else "True".toList,
+           falseWord := if b = 'l' then "false".toList else "False".toList,
+           shorthand := sh = 'T', space := sp = 'T' }
+  | _ => none
+
+def patElems (p : Pat) : List Elem := p.toList
 
 def encCountVal : Option CountVal → String
   | none => "E"
@@ -335,6 +435,22 @@ def handle (line : String) : String :=
       | some ts => encList (ts.map encTok)
       | none => "lexerr"
     | none => "bad-op"
+  | ["print", sty, tree] =>
+    match decStyle sty, decTree tree with
+    | some st, some p =>
+      let text := printPat st p
+      let back := match parseTemplate text with | some p' => encPat p' | none => "rej"
+      encStr text ++ " " ++ encPat p ++ " " ++ back
+    | _, _ => "bad-op"
+  | ["piped", sty, x, tags] =>
+    match decStyle sty, decTree x, decTree tags with
+    | some st, some x, some tags =>
+      let piped := printPiped st x (patElems tags)
+      let nested := printPat st (nest x (patElems tags))
+      let pp := match parseTemplate piped with | some p' => encPat p' | none => "rej"
+      let pn := match parseTemplate nested with | some p' => encPat p' | none => "rej"
+      encStr piped ++ " " ++ encStr nested ++ " " ++ pp ++ " " ++ pn
+    | _, _, _ => "bad-op"
   | _ => "bad-op"
 
 partial def loop (h : IO.FS.Stream) (out : IO.FS.Stream) : IO Unit := do
